@@ -477,6 +477,20 @@ impl<'a, T: Evaluate> PiecewiseEvaluator<'a, T> {
     }
 }
 
+#[cfg(feature = "verif-hooks")]
+impl<'a, T> PiecewiseEvaluator<'a, T> {
+    /// Read-only view of the evaluator's mutable state for external runtime
+    /// monitors: (number of front segments already skipped, number of front
+    /// segments, bits of the last argument).
+    pub fn verif_state(&self) -> (usize, usize, u64) {
+        (
+            self.all_segments_front.len() - self.tail.len(),
+            self.all_segments_front.len(),
+            self.last_evaluation.to_bits(),
+        )
+    }
+}
+
 impl<T: Evaluate> Evaluate for Piecewise<T> {
     #[inline]
     fn evaluate(&self, x: f64) -> f64 {
